@@ -131,6 +131,16 @@ func closApplyOf(fd *ast.FuncDecl, fname string) (bool, []string, bool) {
 	found := false
 	var guards []string
 	passes := false
+	// variables assembled from the initarg list (all := append(slip.List{obj}, args); args = append(…, args[1:]...))
+	fromArgs := map[string]bool{"args": true}
+	ast.Inspect(fd.Body, func(n ast.Node) bool {
+		if as, ok := n.(*ast.AssignStmt); ok && len(as.Lhs) == 1 && len(as.Rhs) == 1 {
+			if id, ok := as.Lhs[0].(*ast.Ident); ok && strings.Contains(types.ExprString(as.Rhs[0]), "args") {
+				fromArgs[id.Name] = true
+			}
+		}
+		return true
+	})
 	var walk func(n ast.Node, conds []string)
 	walkStmts := func(list []ast.Stmt, conds []string) {
 		for _, st := range list {
@@ -178,7 +188,8 @@ func closApplyOf(fd *ast.FuncDecl, fname string) (bool, []string, bool) {
 					found = true
 					guards = conds
 					for _, a := range c.Args {
-						if strings.Contains(types.ExprString(a), "args") {
+						txt := types.ExprString(a)
+						if strings.Contains(txt, "args") || fromArgs[txt] {
 							passes = true
 						}
 					}
@@ -188,15 +199,6 @@ func closApplyOf(fd *ast.FuncDecl, fname string) (bool, []string, bool) {
 		}
 	}
 	walk(fd.Body, nil)
-	if found && !passes {
-		// the argument list may have been assembled in a statement before the call (args = append(…, args[1:]...))
-		ast.Inspect(fd.Body, func(n ast.Node) bool {
-			if as, ok := n.(*ast.AssignStmt); ok && len(as.Lhs) == 1 && types.ExprString(as.Lhs[0]) == "args" {
-				passes = true
-			}
-			return true
-		})
-	}
 	return found, guards, passes
 }
 
